@@ -59,7 +59,11 @@ pub fn stub_run_generators(options: &SliceOptions, encoded_request: &Vec<u8>, di
         all_ok(old(diagnostics).0@) ==> all_ok(final(diagnostics).0@),   // same assumption as above
 { unimplemented!() }
 
-#[verifier::external_body] pub fn stub_emit_diagnostics(options: &SliceOptions, files: &Vec<SliceFile>, diagnostics: Vec<Diagnostic>) { }
+/// whether the list handed to the emitter in this run of main() holds an error diagnostic (main emits once; the emission itself is C14's unit)
+pub uninterp spec fn emitted_an_error() -> bool;
+#[verifier::external_body] pub fn stub_emit_diagnostics(options: &SliceOptions, files: &Vec<SliceFile>, diagnostics: Vec<Diagnostic>)
+    ensures emitted_an_error() == has_error_kind(diagnostics@),
+{ }
 #[verifier::external_body] pub fn stub_emit_totals(warnings: usize, errors: usize) { }
 
 // ---- lib.rs compile_from_options: its callees (trusted here; file_util is C17's unit) -------------
